@@ -1,5 +1,7 @@
 from cacheprops import CACHE_TB, CACHE_ASSUMPTIONS, ca_component
 
+import facts
+
 ID = "C02"
 PROP = {
     "modules": ["Gnmi.Props.C02"],
@@ -23,3 +25,4 @@ PROP = {
         "technique": "Lean 4 proof (decision logic stated outright + induction over histories with an invariant) + model/implementation correspondence",
     },
 }
+PROP.setdefault("pre", []).append(facts.make_step(['cache.stale.cases', 'cache.update.conditions', 'cache.remove.cond']))
